@@ -21,4 +21,41 @@ theorem chain_order (chain : List Nat) :
 example : Mw.run (Mw.apply [0, 1, 2]) =
     [.enter 0, .enter 1, .enter 2, .recv, .exit 2, .exit 1, .exit 0] := by decide
 
+/-- exactly once: in one delivery through the chain `[m₁ … mₙ]` every middleware is entered as often
+    as it is listed (once for a chain without repetition), left as often, and the receiver runs once —
+    for every chain length, including the empty chain. -/
+theorem each_exactly_once (chain : List Nat) (i : Nat) :
+    (Mw.run (Mw.apply chain)).count (Mw.Step.enter i) = chain.count i ∧
+    (Mw.run (Mw.apply chain)).count (Mw.Step.exit i) = chain.count i ∧
+    (Mw.run (Mw.apply chain)).count Mw.Step.recv = 1 := by
+  have he : ∀ l : List Nat, (l.map Mw.Step.enter).count (Mw.Step.enter i) = l.count i := by
+    intro l; induction l with
+    | nil => rfl
+    | cons a t ih => by_cases h : a = i <;> simp [ih, h]
+  have hx : ∀ l : List Nat, (l.map Mw.Step.exit).count (Mw.Step.exit i) = l.count i := by
+    intro l; induction l with
+    | nil => rfl
+    | cons a t ih => by_cases h : a = i <;> simp [ih, h]
+  have he0 : ∀ l : List Nat, (l.map Mw.Step.enter).count (Mw.Step.exit i) = 0 ∧
+      (l.map Mw.Step.enter).count Mw.Step.recv = 0 := by
+    intro l; induction l with
+    | nil => exact ⟨rfl, rfl⟩
+    | cons a t ih => simp [ih.1, ih.2]
+  have hx0 : ∀ l : List Nat, (l.map Mw.Step.exit).count (Mw.Step.enter i) = 0 ∧
+      (l.map Mw.Step.exit).count Mw.Step.recv = 0 := by
+    intro l; induction l with
+    | nil => exact ⟨rfl, rfl⟩
+    | cons a t ih => simp [ih.1, ih.2]
+  rw [Mw.run_apply]
+  simp [List.count_append, he, hx, (he0 chain).1, (he0 chain).2, (hx0 chain).1, (hx0 chain).2]
+
+/-- the receiver is strictly inside: before it runs every middleware has been entered and none left;
+    after it none is entered again. -/
+theorem receiver_innermost (chain : List Nat) :
+    ∃ pre post, Mw.run (Mw.apply chain) = pre ++ [Mw.Step.recv] ++ post ∧
+      pre = chain.map Mw.Step.enter ∧ post = chain.reverse.map Mw.Step.exit :=
+  ⟨_, _, Mw.run_apply chain, rfl, rfl⟩
+
+example : (Mw.run (Mw.apply [4, 7])).count (Mw.Step.enter 7) = 1 := by decide
+
 end HW.C13
